@@ -8,6 +8,7 @@ Under the constant stream v, v, v, ... such a value is exactly w*v + c, and tran
 A product of two stream-dependent values, a division by one, a branch on one ... is outside the domain (TOP): the rule abstains.
 Nothing is executed: no stream value and no concrete length ever exists, only the coefficient sums."""
 import copy
+import re
 from fractions import Fraction
 from itertools import product
 
@@ -145,6 +146,28 @@ class RF:
             k = d[()]
             n = {m: c / k for m, c in n.items()}
             d = p_const(1)
+        elif n:
+            # cancel the common monomial factor of numerator and denominator (x^e dividing every term of both)
+            common = None
+            for poly in (n, d):
+                for m in poly:
+                    e = dict(m)
+                    common = e if common is None else {s_: min(x, e.get(s_, 0)) for s_, x in common.items()}
+                    if not common:
+                        break
+                if not common:
+                    break
+            common = {s_: x for s_, x in (common or {}).items() if x > 0}
+            if common:
+                def div(poly):
+                    out = {}
+                    for m, c in poly.items():
+                        e = dict(m)
+                        for s_, x in common.items():
+                            e[s_] -= x
+                        out[tuple(sorted((a, b) for a, b in e.items() if b))] = c
+                    return out
+                n, d = div(n), div(d)
         self.n, self.d = n, d
 
     @staticmethod
@@ -439,6 +462,18 @@ class Run:
             return K(a.c - q * b.c, True)
         return TOP
 
+    def fits(self, c, ty):
+        """does the configuration quantity c lie in the range of integer type ty for every accepted length?"""
+        bits = BITS.get(ty, 64)
+        lo = -(1 << bits) if ty.startswith('i') else 0
+        if c.is_poly() and p_syms(c.n) <= {'k'} and PARAM_RANGE['kmax'] - PARAM_RANGE['kmin'] <= 70000:
+            for k in range(PARAM_RANGE['kmin'], PARAM_RANGE['kmax'] + 1):
+                x = p_eval(c.n, {'k': k}) if c.n else Fraction(0)
+                if x < lo or x >= (1 << bits):
+                    return False
+            return True
+        return False
+
     def narrow(self, v, to):
         """integer cast into a narrower type of a configuration quantity: the identity when the quantity fits for every accepted
         length (checked over the finite range of the length parameter), otherwise a symbol that remembers what was cast"""
@@ -482,6 +517,14 @@ class Run:
                     return Bool(None, ('eq0', d))
                 if op == 'Ne':
                     return Bool(None, ('ne0', d))
+                if op == 'Gt':
+                    return Bool(None, ('gt0', d))
+                if op == 'Ge':
+                    return Bool(None, ('ge0', d))
+                if op == 'Lt':
+                    return Bool(None, ('gt0', -d))
+                if op == 'Le':
+                    return Bool(None, ('ge0', -d))
                 return Bool(None)
             if is_top(a) or is_top(b):
                 return Bool(None, None, True)
@@ -551,10 +594,12 @@ class Run:
             truth = (v == 1) if v is not None else not any(x == 1 for x, _ in targets)
             if d.cond is not None:
                 kind, rf = d.cond
-                if (kind == 'eq0') == truth:
-                    self.assume.append(('eq0', rf))
+                NEG = {'eq0': ('ne0', 1), 'ne0': ('eq0', 1), 'gt0': ('ge0', -1), 'ge0': ('gt0', -1)}
+                if truth:
+                    self.assume.append((kind, rf))
                 else:
-                    self.assume.append(('ne0', rf))
+                    nk, sg = NEG[kind]
+                    self.assume.append((nk, rf if sg == 1 else -rf))
             return b
         if isinstance(d, Aff):
             if d.lin:
@@ -635,7 +680,7 @@ class Run:
             if r['op'] == 'Not' and isinstance(v, Bool):
                 c = v.cond
                 if c is not None:
-                    c = ('ne0' if c[0] == 'eq0' else 'eq0', c[1])
+                    c = {'eq0': ('ne0', c[1]), 'ne0': ('eq0', c[1]), 'gt0': ('ge0', -c[1]), 'ge0': ('gt0', -c[1])}[c[0]]
                 return Bool(None if v.val is None else not v.val, c, v.data)
             return TOP
         if k == 'discr':
@@ -700,7 +745,22 @@ class Run:
         if name == 'clone' and len(a) == 1:
             return copy.deepcopy(a[0])
         if name in ('from', 'into') and len(a) == 1 and isinstance(a[0], Aff):
-            return a[0]
+            v = a[0]
+            to_float = d.startswith(('<f64 as', '<f32 as')) or (name == 'into' and (c.get('args') or [None, None])[-1] in ('f64', 'f32'))
+            return Aff(v.lin, v.w, v.c, False if to_float else v.isint, v.co)
+        # integer helpers on configuration quantities: exact when the exact result fits the type for every accepted length
+        im = re.match(r'^core::num::<impl (u8|u16|u32|u64|usize|i8|i16|i32|i64|isize)>::(saturating|wrapping|checked)_(add|sub|mul)$', d)
+        if im and len(a) == 2 and all(isinstance(x, Aff) and not x.lin for x in a):
+            ty, mode, op = im.groups()
+            exact = self.arith(op.capitalize(), a[0], a[1])
+            fits = isinstance(exact, Aff) and self.fits(exact.c, ty)
+            if fits:
+                res_v = Aff(False, ZERO, exact.c, True)
+            else:
+                res_v = K(fresh('%s_%s_%s' % (mode, op, ty), (a[0].c, a[1].c), True), True)
+            if mode == 'checked':
+                return Obj('std::option::Option', {'0': res_v}, 'Some') if fits else TOP
+            return res_v
         res = c.get('res') or {}
         id_ = res.get('id')
         b = self.body(id_) if id_ else None
